@@ -87,6 +87,7 @@ func checkC11(c *Ctx) string {
 	// ---- merge never stores into its inputs
 	checkMergeInputs(c)
 
+	checkPassthruRefusesEqualKey(c, "C11.6 K14 pass-through refuses a chunk that continues the last buffered key")
 	return "Decided: (1) with go/constant: Insert==0, Update/Delete non-zero and disjoint, Mask a low-bit block disjoint from both flags and >= stor.MaxSmallOffset; the switch tag of Combine, evaluated for the 9 flag pairs, " +
 		"separates each of the 5 valid pairs from every other pair, and every case constant named after a valid pair (<op>_<op>) equals the encoding of that pair; " +
 		"(2) ixbuf.Combine abstractly evaluated (AbsEnv.run) for {add, update, delete}×{add, update, delete} with three pairs of representative offsets against the table written in the checker " +
